@@ -180,9 +180,15 @@ def channel_phase(ctx, res, values):
                 elif written[0] != before:
                     res.violations.append(dict(case={"tokens": line, "origin": "channel"}, what="bytes reached the connection before DumpError"))
                 else:
-                    ch.send(1)
-                    if ch.receive(10) != 1:
-                        res.violations.append(dict(case={"tokens": line, "origin": "channel"}, what="channel unusable after DumpError"))
+                    try:
+                        ch.send(1)
+                        ok = ch.receive(10) == 1
+                    except BaseException as e:  # noqa: BLE001
+                        ok = False
+                        res.violations.append(dict(case={"tokens": line, "origin": "channel"}, what="channel unusable after a rejected send (DumpError): the next send/receive failed with %r" % (e,)))
+                        return
+                    if not ok:
+                        res.violations.append(dict(case={"tokens": line, "origin": "channel"}, what="channel unusable after DumpError: echo of the next item is wrong"))
                     res.stat("chan_rejected")
                 continue
             except BaseException as e:  # noqa: BLE001
@@ -192,7 +198,11 @@ def channel_phase(ctx, res, values):
                 res.violations.append(dict(case={"tokens": line, "origin": "channel"}, what="Channel.send accepted an unsupported value"))
                 ch.receive(10)
                 continue
-            w = ch.receive(10)
+            try:
+                w = ch.receive(10)
+            except BaseException as e:  # noqa: BLE001
+                res.violations.append(dict(case={"tokens": line, "origin": "channel"}, what="receive of the echoed value failed with %r (connection corrupted?)" % (e,)))
+                return
             if pyval.canon(w) != pyval.canon(v):
                 res.violations.append(dict(case={"tokens": line, "origin": "channel"}, what="value changed in transit", impl=repr(w)[:300]))
             res.stat("chan_ok")
@@ -224,6 +234,12 @@ def run(ctx, nvalues=None):
                 res.stat("named_rejected")
             except BaseException as e:  # noqa: BLE001
                 res.violations.append(dict(case={"tokens": pyval.render(v), "origin": "named-class " + nm}, what="instance of class %s raised %s instead of DumpError" % (nm, type(e).__name__)))
+    # 2b. every kind of lone surrogate is "not UTF-8 encodable" (incl. the surrogateescape range U+DC80..U+DCFF)
+    for cp in (0xD800, 0xDB7F, 0xDBFF, 0xDC00, 0xDC7F, 0xDC80, 0xDCA9, 0xDCC3, 0xDCE9, 0xDCFF, 0xDD00, 0xDFFF):
+        for wrap in (lambda x: x, lambda x: ["ok", x], lambda x: {x: 1}, lambda x: {"k": (None, x + "tail")}):
+            v = wrap("caf" + chr(cp))
+            res.count(("surrogate", cp, repr(type(v))))
+            items.append((pyval.render(v), check_value(ctx, res, v, "surrogate")))
     # 3. generated main stream + malformed stream
     n = nvalues or ctx.budget(2500, 120000, 7000)
     rng = ctx.rng("values")
